@@ -417,8 +417,28 @@ func runCase(c Case) (res vt.Result, fail *vt.Fail) {
 
 	var current predFinder = ociStore
 	live := true // current is the writable store
+	// the listed finding "reopen omits unindexed manifest" has one root cause: GC drops
+	// the digest entry of a manifest that is live through a tagged parent, and a later
+	// Delete of that parent leaves it stored but unlisted (an index save that failed has
+	// the same effect and is not judged). A stored manifest missing from index.json
+	// without such a history is something else and is reported as such.
+	sawGC, gcThenDelete, saveFailed := false, false, false
+	rekey := func(f *vt.Fail) *vt.Fail {
+		if f != nil && f.Key == "C07/reopen-omits-unindexed-manifest" && !gcThenDelete && !saveFailed {
+			f.Key = "C07/stored-manifest-missing-from-index"
+		}
+		return f
+	}
 	for i, op := range c.Tail {
 		when := fmt.Sprintf("after tail step %d (%s %d)", i, op.Op, op.N)
+		switch op.Op {
+		case "gc":
+			sawGC = live || sawGC
+		case "delete":
+			gcThenDelete = gcThenDelete || (sawGC && live)
+		case "push-obstructed":
+			saveFailed = saveFailed || live
+		}
 		switch op.Op {
 		case "push-obstructed":
 			if !live || m.Stored[op.N] || c.Alias {
@@ -544,7 +564,7 @@ func runCase(c Case) (res vt.Result, fail *vt.Fail) {
 			if f := m.refresh(ctx, ociStore, d, when); f != nil {
 				return res, f
 			}
-			if f := orc.CheckPredsView(ctx, s, d, m.Stored, filepath.Join(dir, "layout"), "C07", when+" [oci.New view]"); f != nil {
+			if f := rekey(orc.CheckPredsView(ctx, s, d, m.Stored, filepath.Join(dir, "layout"), "C07", when+" [oci.New view]")); f != nil {
 				return res, f
 			}
 			// the history cannot continue meaningfully on a store that does not
@@ -580,7 +600,7 @@ func runCase(c Case) (res vt.Result, fail *vt.Fail) {
 			if f != nil {
 				return res, f
 			}
-			if f := orc.CheckPredsView(ctx, s, d, vs, filepath.Join(dir, "layout"), "C07", when+" [fs view]"); f != nil {
+			if f := rekey(orc.CheckPredsView(ctx, s, d, vs, filepath.Join(dir, "layout"), "C07", when+" [fs view]")); f != nil {
 				return res, f
 			}
 			res.Classes = append(res.Classes, "reopen-fs")
@@ -617,7 +637,7 @@ func runCase(c Case) (res vt.Result, fail *vt.Fail) {
 			if f != nil {
 				return res, f
 			}
-			if f := orc.CheckPredsView(ctx, s, d, vs, filepath.Join(dir, "layout"), "C07", when+" [tar view]"); f != nil {
+			if f := rekey(orc.CheckPredsView(ctx, s, d, vs, filepath.Join(dir, "layout"), "C07", when+" [tar view]")); f != nil {
 				return res, f
 			}
 			res.Classes = append(res.Classes, "reopen-tar-"+op.Fmt)
